@@ -30,8 +30,8 @@ Simulation (all seven methods):
   Hypotheses: `OrderLaws α`; `Spec.LwSymm α m` (the update is symmetric in the two merged
   clusters — needed because the model passes `(entry{x,a}, entry{x,b}, sizes[a], sizes[b])` with
   `a < b` INDICES while the spec orders the two merged LABELS; proved in `Lemmas/SpecLaws.lean` from
-  commutativity of `+`/`×` for the five arithmetic methods and from `LtTrichotomy` for
-  single/complete); `Spec.NoNaNRun m n data`: no state reached by a greedy run of the SPEC from the
+  commutativity of `+`/`×` for weighted/Ward/centroid/median, from `LtTrichotomy` for
+  single/complete, and from both for the clamped average of the repaired crate); `Spec.NoNaNRun m n data`: no state reached by a greedy run of the SPEC from the
   initial table has a NaN at a live pair (includes: the — squared, for the methods on squares —
   input entries are not NaN).  `Spec.noNaNRun_of_lwNoNaN` derives it from non-NaN input entries
   (`Spec.InitNoNaN`) when the formula maps non-NaN to non-NaN (`Spec.LwNoNaN`; automatic for
@@ -285,7 +285,8 @@ hypotheses of the theorems above (`OrderLaws`, `LwSymm`, `NoNaNRun`, reducibilit
 * `C03_primitive_reduciblePos`  (any number type) `C03_primitive_reducible` with the hypothesis
       `Spec.ReduciblePos α m` — reducibility for POSITIVE cluster sizes only — in place of
       `Spec.Reducible α m`.  Needed because `Reducible` quantifies over all sizes and is FALSE for
-      average/Ward in a field at sizes `0` (`0/0 = 0`; `ExactLaws.not_reducible_average/_ward`); the
+      Ward in a field at sizes `0` (`0/0 = 0`; `ExactLaws.not_reducible_ward`; the clamped average
+      of the repaired crate is `Reducible` for all sizes, `Spec.reducible_average`); the
       sizes met along a greedy run are positive (`Spec.SizePos`, `Lemmas/ReduciblePos.lean`).
       Proved by composing `C03_primitive_mergeorder` and `C03_primitive_of_monotone`.
 * `C03_primitive_exact`  all seven methods over `K`: `primitiveWith` returns normally and the
@@ -395,13 +396,15 @@ Built on the totality proof `genericWith_eq` (`Lemmas/GenericRun.lean`); new lem
   `Num.isNaN max_value = false` ✓;  inputs in `G`.
 * `UpdClosed G m`: `G` closed under the update formula — a theorem for single/complete, otherwise a
   hypothesis on the chosen `G` (no overflow / NaN produced).
-* `Spec.LwSymm α m`: from commutativity of `+`, `×` ✓ for the five arithmetic methods
-  (`lwSymm_centroid`, …); for single/complete from `LtTrichotomy` (false for `±0`).
+* `Spec.LwSymm α m`: from commutativity of `+`, `×` ✓ for weighted/Ward/centroid/median
+  (`lwSymm_centroid`, …); for single/complete from `LtTrichotomy` (false for `±0`); for the clamped
+  average (`fix:` commit of the crate) from both (`lwSymm_average`).
 * `LBClosed G m` — ONLY for the five methods whose range 1 does not lower priorities (single, complete,
   average, weighted, Ward; `l1Mode m = .fix`): the update of two values `≥ p` is `≥ p` (Ward: given
   also `p ≥` merged distance).  Theorem for single/complete; follows from `Spec.Reducible` for
   average/weighted (`lbClosed_of_reducible`); true in exact arithmetic for average/weighted/Ward but
-  NOT under float rounding.  Centroid and median — the `linkage` case — need NO such hypothesis:
+  NOT under float rounding for weighted/Ward (for the clamped average of the repaired crate it is a
+  theorem in every ordered number type: `lbClosed_average`, `Spec.reducible_average`).  Centroid and median — the `linkage` case — need NO such hypothesis:
   their range 1 lowers the priority itself.
 * `Spec.Reducible α m` only for the sorted methods' returned dendrogram (as for `primitive`).
 * No `NoNaNRun` hypothesis: it follows from `GoodSet`/`UpdClosed`/good inputs
@@ -617,26 +620,14 @@ example : ∃ st' dend' M',
     GenericExample.hmax _ _ _ 4 (by decide) (by decide) (by decide)
     (squareData_good .single _ (by simp [GenericExample.G, Method.onSquares]))
 
-/-- The merge-order theorem for average linkage: `LBClosed` is satisfiable (over `Nat` the weighted
-mean of two values `≥ p` is `≥ p`). -/
-theorem Toy.natLBClosed_average : LBClosed GenericExample.G .average := by
-  intro sizes sa sb dist x va vb v p _ hs' _ _ _ _ h h1 h2
-  obtain ⟨p1, p2⟩ := hs' rfl
-  simp only [updFn, Gen.average, pure, Except.pure, Except.ok.injEq] at h
-  subst h
-  change decide (va < p) = false at h1
-  change decide (vb < p) = false at h2
-  change decide ((sa * va + sb * vb) / (sa + sb) < p) = false
-  simp only [decide_eq_false_iff_not, Nat.not_lt] at h1 h2 ⊢
-  rw [Nat.le_div_iff_mul_le (by omega)]
-  have e1 : sa * p ≤ sa * va := Nat.mul_le_mul_left _ h1
-  have e2 : sb * p ≤ sb * vb := Nat.mul_le_mul_left _ h2
-  rw [Nat.mul_comm, Nat.add_mul]
-  omega
+/-- The merge-order theorem for average linkage: `LBClosed` is satisfiable (the clamped average of two
+values `≥ p` is `≥ p` in every ordered number type, `lbClosed_average`). -/
+theorem Toy.natLBClosed_average : LBClosed GenericExample.G .average :=
+  lbClosed_average Toy.natOrderLaws GenericExample.goodSet_G
 
 example := C03_generic_mergeorder Toy.natOrderLaws Toy.natBeqLe GenericExample.goodSet_G true
   .average GenericExample.closed_average (fun _ => Toy.natLBClosed_average)
-  (lwSymm_average Toy.natComm) GenericExample.hmax State.new (Dendrogram.new 0)
+  (lwSymm_average Toy.natOrderLaws Toy.natTrichotomy Toy.natComm) GenericExample.hmax State.new (Dendrogram.new 0)
   (#[5, 1, 4, 3, 1, 2] : Array Nat) 4 (by decide) (by decide) (by decide)
   (squareData_good .average _ (by simp [GenericExample.G, Method.onSquares]))
 
